@@ -2,6 +2,7 @@
 # usage: tools/sensitivity.sh [ID-prefix]   — apply each recorded breaking edit to /repo, run the
 # property's quick check, expect exit 1 (VIOLATION), and undo the edit.  Never leaves /repo dirty.
 cd /verif || exit 2
+export XV_EVIDENCE_DIR=${XV_EVIDENCE_DIR:-/tmp/xv_ev}   # keep runs against broken trees out of /verif/evidence
 if [ -n "$(git -C /repo status --porcelain)" ]; then echo "/repo is dirty"; exit 2; fi
 pass=0; fail=0
 for d in sensitivity/${1:-}*.diff; do
